@@ -7,6 +7,7 @@
 import WR.C16.Lemmas
 import WR.C16.LemmasOrder
 import WR.C16.Enclosure
+import WR.C16.LemmasEnclosure
 set_option linter.unusedSimpArgs false
 namespace WR.Props.C16
 open WR.C16
@@ -63,7 +64,7 @@ theorem partition_covers (own : List CCtx) :
     content, z = 0 / auto contexts, positive-z contexts ], outlines of the box and of its in-flow descendants ]]]
     — the children of one context are painted in Appendix E's layer order whatever the lists contain. -/
 theorem context_layer_order (id : Nat) (pr : BProps) (neg zero pos : List CCtx) (blocks : List Nat)
-    (floats : List (List PEv)) (lines kept : List Nat) :
+    (floats : List (List PEv)) (lines : List (List PEv)) (kept : List Nat) :
     drawCtx id pr neg zero pos blocks floats lines kept =
       (if pr.opacity then [(id, Layer.groupOpen)] else [])
       ++ (if pr.transform then [(id, Layer.xformOpen)] else [])
@@ -72,7 +73,7 @@ theorem context_layer_order (id : Nat) (pr : BProps) (neg zero pos : List CCtx) 
       ++ neg.flatMap (·.2)
       ++ blocks.flatMap (fun b => [(b, Layer.background), (b, Layer.border)])
       ++ floats.flatten
-      ++ lines.map (fun b => (b, Layer.content))
+      ++ lines.flatten
       ++ zero.flatMap (·.2)
       ++ pos.flatMap (·.2)
       ++ (if pr.overflow then [(id, Layer.clipClose)] else [])
@@ -84,7 +85,7 @@ theorem context_layer_order (id : Nat) (pr : BProps) (neg zero pos : List CCtx) 
 /-- for a block-level box that forms a (pseudo-)context: background < border < the paints of its context <
     its outline -/
 theorem box_layers_order (id : Nat) (pr : BProps) (h : pr.blockLevel = true) (parts : List CCtx) (blocks : List Nat)
-    (floats : List (List PEv)) (lines inflow : List Nat) :
+    (floats : List (List PEv)) (lines : List (List PEv)) (inflow : List Nat) :
     ∃ pre mid post, layers id pr parts blocks floats lines inflow
       = pre ++ (id, Layer.background) :: (id, Layer.border) :: mid ++ (id, Layer.outline) :: post
       ∧ (∀ e ∈ pre, e = (id, Layer.groupOpen) ∨ e = (id, Layer.xformOpen)) := by
@@ -92,7 +93,7 @@ theorem box_layers_order (id : Nat) (pr : BProps) (h : pr.blockLevel = true) (pa
     (if pr.overflow then [(id, Layer.clipOpen)] else []) ++ (((sortZ (parts.filter (·.1 < 0))).flatMap (·.2)
       ++ (blocks.flatMap (fun b => [(b, Layer.background), (b, Layer.border)])
       ++ (floats.flatten
-      ++ ((((if pr.hasLines then [id] else []) ++ lines).map (fun b => (b, Layer.content)))
+      ++ (lines.flatten
       ++ ((parts.filter (·.1 == 0)).flatMap (·.2)
       ++ (sortZ (parts.filter (·.1 > 0))).flatMap (·.2)))))) ++ (if pr.overflow then [(id, Layer.clipClose)] else [])),
     inflow.map (fun b => (b, Layer.outline)) ++ ((if pr.transform then [(id, Layer.xformClose)] else [])
@@ -105,7 +106,7 @@ theorem box_layers_order (id : Nat) (pr : BProps) (h : pr.blockLevel = true) (pa
     `group-open … group-close`; the transform scope lies inside the group and contains every paint; the
     overflow clip contains steps 3-9 and neither the box's background/border nor its outline. -/
 theorem group_brackets_shape (id : Nat) (pr : BProps) (parts : List CCtx) (blocks : List Nat)
-    (floats : List (List PEv)) (lines inflow : List Nat) :
+    (floats : List (List PEv)) (lines : List (List PEv)) (inflow : List Nat) :
     ∃ bgbd inner outl,
       layers id pr parts blocks floats lines inflow =
         (if pr.opacity then [(id, Layer.groupOpen)] else [])
@@ -121,7 +122,7 @@ theorem group_brackets_shape (id : Nat) (pr : BProps) (parts : List CCtx) (block
     ((sortZ (parts.filter (·.1 < 0))).flatMap (·.2)
       ++ (blocks.flatMap (fun b => [(b, Layer.background), (b, Layer.border)])
       ++ (floats.flatten
-      ++ ((((if pr.hasLines then [id] else []) ++ lines).map (fun b => (b, Layer.content)))
+      ++ (lines.flatten
       ++ ((parts.filter (·.1 == 0)).flatMap (·.2)
       ++ (sortZ (parts.filter (·.1 > 0))).flatMap (·.2)))))), _, ?_, ?_, rfl⟩
   · simp [layers, List.append_assoc]
@@ -149,28 +150,30 @@ theorem pseudo_context_lifts (b : Box) (cc : List CCtx) :
   | mk id pr children =>
     exact ctx_some_of id pr children cc (dispatchChildren_eq children)
 
-def pr0 : BProps := ⟨false, none, false, false, false, false, true, false, false⟩
+def pr0 : BProps := ⟨false, none, false, false, false, false, true, false, false, false⟩
+/-- a text run -/
+def txt (n : Nat) : Box := .mk n { pr0 with blockLevel := false, text := true } []
 
 /-- The document that used to be the negation witness (z-index was honoured on a non-positioned opacity
     box; repaired in /repo a96a4f9; the same document is a first-run corpus case of the harness):
     b1: position:relative; z-index:1 — b2: opacity:0.5; z-index:2 (not positioned). -/
 def witness : Box :=
   .mk 9 pr0
-    [.mk 1 { pr0 with positioned := true, z := some 1, hasLines := true } [],
-     .mk 2 { pr0 with z := some 2, opacity := true, hasLines := true } []]
+    [.mk 1 { pr0 with positioned := true, z := some 1, hasLines := true } [txt 11],
+     .mk 2 { pr0 with z := some 2, opacity := true, hasLines := true } [txt 12]]
 
 theorem witness_spec : specOrder witness =
     [(9, .background), (9, .border),
-     (2, .groupOpen), (2, .background), (2, .border), (2, .content), (2, .outline), (2, .groupClose),
-     (1, .background), (1, .border), (1, .content), (1, .outline), (9, .outline)] := by
-  simp [witness, pr0, specOrder, specReal, specPseudo, layers, participants, flowBlocks, floatsOf, flowLines, flowAll,
+     (2, .groupOpen), (2, .background), (2, .border), (12, .content), (2, .outline), (12, .outline), (2, .groupClose),
+     (1, .background), (1, .border), (11, .content), (1, .outline), (11, .outline), (9, .outline)] := by
+  simp [witness, pr0, txt, inlineOf, specOrder, specReal, specPseudo, layers, participants, flowBlocks, floatsOf, flowLines, flowAll,
     BProps.inFlow, BProps.specZ, BProps.makesContext, sortZ, insertZ]
 
 /-- b2 (layer 8: z-index does not apply) is painted before b1 (layer 9) by the model too -/
 theorem witness_model : paintOrder witness =
     [(9, .background), (9, .border),
-     (2, .groupOpen), (2, .background), (2, .border), (2, .content), (2, .outline), (2, .groupClose),
-     (1, .background), (1, .border), (1, .content), (1, .outline), (9, .outline)] := by
+     (2, .groupOpen), (2, .background), (2, .border), (12, .content), (2, .outline), (12, .outline), (2, .groupClose),
+     (1, .background), (1, .border), (11, .content), (1, .outline), (11, .outline), (9, .outline)] := by
   rw [paint_order_respects_E, witness_spec]
 
 /-! ## group_encloses_subtree
@@ -189,36 +192,115 @@ theorem witness_model : paintOrder witness =
   Negation witness: <div style="overflow:hidden"><div style="outline:…">x</div></div>. -/
 
 def clipWitness : Box :=
-  .mk 9 pr0 [.mk 1 { pr0 with overflow := true } [.mk 2 { pr0 with hasLines := true } []]]
+  .mk 9 pr0 [.mk 1 { pr0 with overflow := true } [.mk 2 { pr0 with hasLines := true } [txt 12]]]
 
 theorem clipWitness_spec : specOrder clipWitness =
     [(9, .background), (9, .border), (1, .background), (1, .border), (1, .clipOpen), (2, .background), (2, .border),
-     (2, .content), (1, .clipClose), (1, .outline), (2, .outline), (9, .outline)] := by
-  simp [clipWitness, pr0, specOrder, specReal, specPseudo, layers, participants, flowBlocks, floatsOf, flowLines, flowAll,
+     (12, .content), (1, .clipClose), (1, .outline), (2, .outline), (12, .outline), (9, .outline)] := by
+  simp [clipWitness, pr0, txt, inlineOf, specOrder, specReal, specPseudo, layers, participants, flowBlocks, floatsOf, flowLines, flowAll,
     BProps.inFlow, BProps.specZ, BProps.makesContext, sortZ, insertZ]
 
 theorem group_encloses_subtree_false : enclosureJudge clipWitness (specOrder clipWitness) = false := by
   rw [clipWitness_spec]
-  simp only [clipWitness, pr0, enclosureJudge, encloseBox, encloseList, idsOf, idsOfL]
+  simp only [clipWitness, pr0, txt, enclosureJudge, encloseBox, encloseList, idsOf, idsOfL]
   decide
 
 /-- … and that outline is the only thing wrong with it -/
 theorem group_encloses_subtree_witness_lenient : enclosureJudgeLenient clipWitness (specOrder clipWitness) = true := by
   rw [clipWitness_spec]
-  simp only [clipWitness, pr0, enclosureJudgeLenient, encloseBox, encloseList, idsOf, idsOfL]
+  simp only [clipWitness, pr0, txt, enclosureJudgeLenient, encloseBox, encloseList, idsOf, idsOfL]
   decide
 
-/- What is proved of it for all trees: `group_brackets_shape` (the brackets of a box enclose everything its
-   own (pseudo-)context paints, outline included; the clip encloses steps 3-9 only) and
-   `box_layers_order`.  NOT proved for all trees (judged on every rendered document): that every descendant's
-   paints are among what the box's context paints (completeness of the traversals), i.e.
-   `enclosureJudgeLenient root (specOrder root) = true`. -/
+/-- the KF16-2 exemption, as a decidable set of events: the outlines of the in-flow descendants of the box
+    (drawStackingContext paints them at step 10, after the overflow clip is closed) -/
+def exemptOutlines (b : Box) : List PEv := (flowAll b.children).map (fun x => (x, Layer.outline))
+
+/-- group_encloses_subtree, what holds for ALL trees (ids pairwise distinct) and every box `b` of the tree that
+    forms a stacking context / a group (positioned with z-index, opacity < 1, transform, overflow ≠ visible):
+
+    1. in the trace of the model (= of the spec) what `b` paints is ONE contiguous segment;
+    2. no event of `b`'s sub-tree lies outside the segment — a real context keeps its whole sub-tree: the
+       positioned / z-ordered descendants that the painting order moves are moved to the nearest enclosing
+       REAL context, never past `b` (they leave only floats and positioned z-index:auto boxes, which open no group);
+    3. every event of the segment belongs to `b`'s sub-tree;
+    4. the segment is  [group-open] [xform-open] bg bd [clip-open] inner [clip-close] outline(b) exempt [xform-close]
+       [group-close]: with opacity < 1 everything the sub-tree paints (outlines included) is between the open and
+       the composite of the group, and inside the transform scope;
+    5. with overflow ≠ visible every event of a descendant is inside the clip, EXCEPT exactly `exemptOutlines b`
+       (KF16-2); the box's own background, border and outline are outside the clip. -/
+theorem group_encloses_subtree_partial (root b : Box) (hnd : (idsOf root).Nodup) (hb : b ∈ sub root)
+    (hctx : b.pr.makesContext = true) :
+    ∃ pre post bgbd inner,
+      paintOrder root = pre ++ specReal b ++ post
+      ∧ (∀ e ∈ pre ++ post, e.1 ∉ idsOf b)
+      ∧ (∀ e ∈ specReal b, e.1 ∈ idsOf b)
+      ∧ specReal b =
+          (if b.pr.opacity then [(b.id, Layer.groupOpen)] else [])
+          ++ ((if b.pr.transform then [(b.id, Layer.xformOpen)] else [])
+            ++ (bgbd
+              ++ ((if b.pr.overflow then [(b.id, Layer.clipOpen)] else [])
+                  ++ (inner ++ (if b.pr.overflow then [(b.id, Layer.clipClose)] else [])))
+              ++ (b.id, Layer.outline) :: exemptOutlines b)
+            ++ (if b.pr.transform then [(b.id, Layer.xformClose)] else []))
+          ++ (if b.pr.opacity then [(b.id, Layer.groupClose)] else [])
+      ∧ (∀ e ∈ bgbd, e = (b.id, Layer.background) ∨ e = (b.id, Layer.border))
+      ∧ (∀ e ∈ specReal b, e.1 ≠ b.id → e ∈ inner ∨ e ∈ exemptOutlines b) := by
+  obtain ⟨pre, post, h1, h2, h3, h4⟩ := trace_segment root b hnd hb (Or.inl hctx)
+  cases b with
+  | mk id pr children =>
+    obtain ⟨bgbd, inner, outl, hs, hbg, ho⟩ := group_brackets_shape id pr (participants children) (flowBlocks children)
+      (floatsOf children) ((if pr.hasLines then [inlineOf children] else []) ++ flowLines children) (flowAll children)
+    subst ho
+    have hshape := hs
+    rw [← specReal] at hshape
+    refine ⟨pre, post, bgbd, inner, by rw [paint_order_respects_E]; exact h1, ?_, h4, ?_, hbg, ?_⟩
+    · intro e he
+      rcases List.mem_append.mp he with he | he
+      · exact h2 e he
+      · exact h3 e he
+    · simp only [Box.pr, Box.id, exemptOutlines, Box.children]
+      exact hshape
+    · intro e he hne
+      rw [hshape] at he
+      simp only [List.mem_append, List.mem_cons] at he
+      simp only [Box.id] at hne
+      have own : ∀ (c : Bool) (l : Layer), e ∈ (if c then [(id, l)] else []) → False := by
+        intro c l h
+        split at h <;> simp at h
+        exact hne (by rw [h])
+      rcases he with (h | (h | ((h | (h | (h | h))) | (h | h))) | h) | h
+      · exact (own _ _ h).elim
+      · exact (own _ _ h).elim
+      · rcases hbg e h with h | h <;> exact (hne (by rw [h])).elim
+      · exact (own _ _ h).elim
+      · exact Or.inl h
+      · exact (own _ _ h).elim
+      · exact (hne (by rw [h])).elim
+      · exact Or.inr (by simpa [exemptOutlines, Box.children] using h)
+      · exact (own _ _ h).elim
+      · exact (own _ _ h).elim
+
+/-- non-vacuity of the hypotheses: the overflow box of the KF16-2 witness, in a tree with distinct ids; its
+    exempt events are exactly the outline of its in-flow child (and of that child's text run) -/
+example : (idsOf clipWitness).Nodup
+    ∧ Box.mk 1 { pr0 with overflow := true } [.mk 2 { pr0 with hasLines := true } [txt 12]] ∈ sub clipWitness
+    ∧ exemptOutlines (.mk 1 { pr0 with overflow := true } [.mk 2 { pr0 with hasLines := true } [txt 12]])
+        = [(2, .outline), (12, .outline)] := by
+  refine ⟨?_, ?_, ?_⟩
+  · simp [clipWitness, txt, idsOf, idsOfL]
+  · simp [clipWitness, sub, subL]
+  · simp [exemptOutlines, Box.children, flowAll, BProps.inFlow, BProps.makesContext, pr0, txt]
+
+/- NOT proved for all trees: the Bool judge itself (`enclosureJudgeLenient root (specOrder root) = true`), i.e. the
+   translation of the segment structure above into positions of first occurrences, and the per-box
+   "background < border < content < outline" for boxes painted by an ancestor's context (for context boxes:
+   `box_layers_order`).  Both are judged on every rendered document. -/
 
 /-- non-vacuity of the layers: negative / positive contexts with a tie, a positioned z-index:auto box holding a
     negative-z context (lifted to the root context), a float, nested in-flow blocks, an opacity+transform+overflow box -/
 example : enclosureJudgeLenient witness (specOrder witness) = true := by
   rw [witness_spec]
-  simp only [witness, pr0, enclosureJudgeLenient, encloseBox, encloseList, idsOf, idsOfL]
+  simp only [witness, pr0, txt, enclosureJudgeLenient, encloseBox, encloseList, idsOf, idsOfL]
   decide
 
 end WR.Props.C16
